@@ -244,7 +244,7 @@ Section InvMod.
 
   Theorem inv_mod_spec : 0 <= inv_mod B b0 c < c /\ (inv_mod B b0 c * b0) mod c = 1.
   Proof.
-    unfold inv_mod.
+    unfold inv_mod. cbv zeta.
     assert (H0 : iinv (MkIst 1 0 b0 c)).
     { unfold iinv. cbn [i_a i_x i_a2 i_b2]. repeat split; try lia.
       - rewrite Z.mul_1_l. reflexivity.
@@ -257,6 +257,7 @@ Section InvMod.
       pose proof (Z.log2_up_spec B ltac:(lia)) as [_ Hl]. destruct H1 as (_ & _ & Hnn & _). lia. }
     destruct H1 as (Ha & _ & _ & Ha2 & Ea & _ & Eg).
     rewrite Hdone in Eg. rewrite Z.gcd_0_r in Eg. rewrite Hg in Eg. rewrite Z.abs_eq in Eg by lia.
+    rewrite Eg. cbn [Z.eqb Pos.eqb].
     split; [exact Ha|]. rewrite <- (Z.mod_1_l c) by lia. change (eqm c (i_a s * b0) 1). rewrite Ea, Eg. reflexivity.
   Qed.
 End InvMod.
